@@ -3,6 +3,24 @@ let show_st5 ((((a, b), c), d), e) =
   "(" ^ show_z a ^ " " ^ show_z b ^ " " ^ show_z c ^ " " ^ show_z d ^ " " ^ show_z e ^ ")"
 let native = oracle "ripemd160"
 let sha = oracle "sha256"
+(* one operation of a BloomFilter history: A:x.. H:x.. S:x..:i.. B:i.. C:i.. L T:i.. K:i.. P:i..:i.. R:x.. *)
+let arg_op t =
+  match String.split_on_char ':' t with
+  | ["A"; d] -> OpAdd (arg_bytes d)
+  | ["H"; d] -> OpAddHash160 (arg_bytes d)
+  | ["S"; d; i] -> OpAddSpendable (arg_bytes d, arg_z i)
+  | ["B"; v] -> OpSetBit (arg_z v)
+  | ["C"; v] -> OpCheckBit (arg_z v)
+  | ["L"] -> OpLoad
+  | ["T"; v] -> OpSetTweak (arg_z v)
+  | ["K"; v] -> OpSetK (arg_z v)
+  | ["P"; i; v] -> OpPoke (arg_z i, arg_z v)
+  | ["R"; d] -> OpReplace (arg_bytes d)
+  | _ -> failwith ("arg_op " ^ t)
+let show_obs = function
+  | ObsNone -> "N"
+  | ObsBool b -> show_bool b
+  | ObsLoad (v, k, t) -> "(" ^ show_bytes v ^ " " ^ show_z k ^ " " ^ show_z t ^ ")"
 let dispatch f args = match f, args with
   | "fi", [x; y; z; i] -> show_outcome show_z (c19_fi (arg_z x) (arg_z y) (arg_z z) (arg_z i))
   | "rol", [x; i] -> show_z (c19_rol (arg_z x) (arg_z i))
@@ -27,5 +45,11 @@ let dispatch f args = match f, args with
   | "bloom_bits", [sz; sets; checks] ->
     show_outcome (show_pair show_bytes (show_list show_bool))
       (c19_bloom_bits (arg_z sz) (arg_list arg_z sets) (arg_list arg_z checks))
+  | "bloom_history", [sz; k; t; ops] ->
+    show_outcome (show_pair show_bytes (show_list show_obs))
+      (c19_bloom_history (arg_z sz) (arg_z k) (arg_z t) (arg_list arg_op ops))
+  | "spec_history", [sz; k; t; ops] ->
+    show_pair show_bytes (show_list show_obs)
+      (c19_spec_history (arg_z sz) (arg_z k) (arg_z t) (arg_list arg_op ops))
   | _ -> failwith ("unknown function " ^ f)
 let () = main_loop dispatch
